@@ -143,7 +143,8 @@ def _function_over_one_var(repr_func, raw_func, x, out=None, out_like=None, sizi
     else:
         config = x.config
 
-    if method == 'repr' or x.scaled or n_frac is None:
+    # (a scaled destination takes values, not codes: its scale and bias are applied by the store)
+    if method == 'repr' or x.scaled or n_frac is None or (out is not None and out.scaled) or (out_like is not None and out_like.scaled):
         raw = False
         val = repr_func(x.get_val(), **kwargs)
     elif method == 'raw':
